@@ -691,8 +691,15 @@ where
     }
 
     fn try_reallocate(&mut self, new_capacity: usize) -> Result<(), TryReserveError> {
+        let table = RawTable::try_with_capacity(new_capacity)?;
+        self.reallocate_into(table);
+        Ok(())
+    }
+
+    // Moves all entries into the given empty table, which must have sufficient
+    // capacity for them, and makes it the table of this cache.
+    fn reallocate_into(&mut self, mut old_table: RawTable<Entry<K, V>>) {
         let hasher = make_hasher(&self.hash_builder);
-        let mut old_table = RawTable::try_with_capacity(new_capacity)?;
 
         // Hashing calls into user code, which may panic. All hashes are
         // computed before any entry is moved, so that a panic leaves the cache
@@ -723,8 +730,6 @@ where
             prev_entry.get_mut().next = entry_ptr;
             next_entry.get_mut().prev = entry_ptr;
         }
-
-        Ok(())
     }
 
     fn reallocate(&mut self, new_capacity: usize) {
@@ -989,7 +994,16 @@ where
         let new_capacity = self.len().max(min_capacity);
 
         if self.capacity() > new_capacity {
-            self.reallocate(new_capacity);
+            let table = RawTable::with_capacity(new_capacity);
+
+            // Removed entries can leave tombstones in the table, which lower
+            // the capacity it reports. A new table for the requested capacity
+            // may then offer more than that. Shrinking must never raise the
+            // capacity, so the current table is kept in that case.
+
+            if table.capacity() < self.capacity() {
+                self.reallocate_into(table);
+            }
         }
     }
 
